@@ -109,6 +109,22 @@ def worker(c):
                 out["der_alg_value"] = str(dz)[:80]
             except Exception:
                 out["der_alg_raises"] = True
+            # product rule with a bspline signal: der(s*g(t) + h) = der(s)*g + s*g' + der(h), whether or not h brings a state in
+            o3 = rockit.Ocp(t0=0.5, T=2)
+            x3 = o3.state()
+            o3.set_der(x3, -x3 + o3.t)
+            s3 = o3.parameter(grid="bspline", order=2 + c["nx"] % 2)
+            a3, b3 = 0.5 + 0.25 * c["order"], 1.0 + 0.5 * (c["nx"] % 3)
+            g3 = a3 * ca.cos(o3.t) + o3.t ** 2
+            out["signal_product_rule"] = []
+            for h3, dh3 in ((b3 * o3.t, b3), (x3 * x3, 2 * x3 * (-x3 + o3.t)), (ca.MX(0), 0)):
+                lhs = o3.der(s3 * g3 + h3)
+                rhs = o3.der(s3) * g3 + s3 * ca.jacobian(g3, o3.t) + dh3
+                diff = lhs - rhs
+                sv = ca.symvar(diff)
+                fdiff = ca.Function("fd", sv, [diff])
+                vals = [float(fdiff(*[0.3 + 0.17 * (i + 1) * (q + 1) for i in range(len(sv))])) for q in range(3)]
+                out["signal_product_rule"].append(max(abs(v) for v in vals))
             # control of order k: k derivatives exist, one more raises
             k = c["order"]
             w = ocp.control(order=k)
@@ -176,6 +192,9 @@ def run(tier="quick", seed=0, jobs=16):
             if not d and not r.get("der_alg_raises", True):
                 d = [{"what": "der of an expression depending on an algebraic variable did not raise (the variable is treated as a constant)",
                       "returned": r.get("der_alg_value")}]
+            if not d and any(v > 1e-9 for v in r.get("signal_product_rule", [])):
+                d = [{"what": "der(s*g(t) + h) of a bspline signal s is not der(s)*g + s*g' + der(h) (explicit time direction or a seed lost)",
+                      "residuals [h = b*t, h = x^2, h = 0]": r["signal_product_rule"]}]
             if not d and not r["der_control_raises"]:
                 d = [{"what": "der of an expression depending on a control did not raise"}]
         if d:
@@ -186,7 +205,7 @@ def run(tier="quick", seed=0, jobs=16):
             "rule": "random ODEs (1-3 states plus 0-2 quadrature states, rational right-hand sides in x, u, p, t) x 1-3 (stacked, vector valued) "
                     "expressions of states, parameters and explicit time (polynomials, quotients with 1+s^2 denominators, "
                     "powers, products) x 3 rational evaluation points; controls of order 0..3 (chain walk, one more raises); "
-                    "der of a control-dependent expression raises.  distinct by hash of the case",
+                    "der of a control-dependent expression raises; product rule for expressions of a bspline signal times a function of time, with and without a state.  distinct by hash of the case",
             "samples": [cases[0]], "disagreements": dis, "distribution": {"orders": [c["order"] for c in cases[:20]]},
             "extra": {}}
 
